@@ -572,6 +572,9 @@ func (c *Checker) checkBuiltinImports(node *ast.ProgramNode, wg *sync.WaitGroup)
 
 func (c *Checker) CheckProgram(node *ast.ProgramNode) compiler.Compiler {
 	var wg sync.WaitGroup
+	// every program starts with its definitions, an incremental checker
+	// is still in the phase the previous input has ended with
+	c.phase = initPhase
 
 	c.checkBuiltinImports(node, &wg)
 
